@@ -384,15 +384,23 @@ def neg_rules(run, db):
     """No order that can be negative reaches a recurrence."""
     # laguerre_der / laguerre_der_seq, hermite *_der, jacobi_der: the order handed to the value function
     table = [(PF.PL + 'laguerre_der', PF.PL + 'laguerre'), (PF.PH + 'hermite_He_der', PF.PH + 'hermite_He'), (PF.PH + 'hermite_H_der', PF.PH + 'hermite_H'), (PF.PJ + 'jacobi_der', PF.PJ + 'jacobi')]
+    from .memo import _reach
     for qual, callee in table:
         f = db.func(qual)
         it, dom = PF.mk_order(db)
         dom.lower['n'] = 0
         seen = []
+        # the routines that carry the recurrence: the value function, or whichever routine it hands its order to that has the sweep
+        carriers = {callee} | {q for q in _reach(db, [db.func(callee)], 3) if db.has_func(q) and any(isinstance(n_, (ast.For, ast.While)) for n_ in walk_no_nested(db.func(q).node))}
 
-        def call_prysm(fi, args, kwargs, node, dom=dom, seen=seen, callee=callee):
-            if fi.qual == callee:
-                r = dom.rat(args[0])
+        def call_prysm(fi, args, kwargs, node, dom=dom, seen=seen, callee=callee, carriers=carriers):
+            if fi.qual in carriers:
+                # the order handed on: the argument that is a function of this routine's own order n (whatever the parameter is called)
+                cands = [dom.rat(a) for a in list(args) + list(kwargs.values())]
+                cands = [r for r in cands if r is not None and 'n' in r.atoms()] if fi.qual != callee else [dom.rat(args[0])]
+                if len(cands) != 1 or cands[0] is None:
+                    raise AnalysisError('%s: which argument of %s is the order is not followed' % (qual, fi.name))
+                r = cands[0]
                 lo = dom._min(r.num * (1 / r.den.const_value())) if r is not None and r.den.is_const() else None
                 seen.append((r, lo, node))
                 return dom.func_atom(fi.name, list(args))
